@@ -656,15 +656,28 @@ type c03FStep struct {
 }
 
 type c03Foreign struct {
+	Opt vfOptMix `json:"opt,omitempty"` // options that must not matter here
 	IL     bool       `json:"il"`
 	TSN    uint32     `json:"tsn"`
 	Slow   bool       `json:"slow"` // reader paused while packets arrive
-	Writes int        `json:"writes"`
+	// HS: 0 the endpoint is the client (it never handles an INIT, so it owns no cookie);
+	// 1 the endpoint is the server and the puppet sends its COOKIE-ECHO bundled with the first
+	// DATA chunks, HSRep more copies of that packet follow HSGapMs apart (a lost COOKIE-ACK)
+	HS      int `json:"hs,omitempty"`
+	HSRep   int `json:"hsrep,omitempty"`
+	HSGapMs int `json:"hsgap,omitempty"`
+	Writes  int `json:"writes"`
 	Steps  []c03FStep `json:"steps"`
 }
 
 func genC03Foreign(rt *rapid.T) c03Foreign {
 	x := c03Foreign{IL: rapid.Bool().Draw(rt, "il"), TSN: genTSN(rt, "tsn", 8448), Slow: rapid.IntRange(0, 3).Draw(rt, "slow") != 0, Writes: rapid.IntRange(0, 6).Draw(rt, "writes")}
+	if rapid.IntRange(0, 2).Draw(rt, "hs") == 0 {
+		x.HS = 1
+		x.HSRep = rapid.IntRange(0, 2).Draw(rt, "hsrep")
+		x.HSGapMs = rapid.SampledFrom([]int{0, 5, 30, 1000}).Draw(rt, "hsgap")
+	}
+	x.Opt = genOptMix(rt, "opt")
 	n := rapid.IntRange(2, 30).Draw(rt, "n")
 	bund := []string{"", "", "sack", "sack", "hb", "hback", "fwd", "data"}
 	for i := 0; i < n; i++ {
@@ -676,7 +689,12 @@ func genC03Foreign(rt *rapid.T) c03Foreign {
 		case 2:
 			st.K = "sack"
 		case 3:
-			st.K = "hb"
+			if rapid.Bool().Draw(rt, "strayk") {
+				st.K = "stray"
+				st.G = rapid.IntRange(0, 2).Draw(rt, "stray")
+			} else {
+				st.K = "hb"
+			}
 		default:
 			st.K = "msg"
 			st.SID = rapid.IntRange(0, 3).Draw(rt, "sid")
@@ -696,8 +714,9 @@ func genC03Foreign(rt *rapid.T) c03Foreign {
 func runC03Foreign(t *testing.T, x c03Foreign, verbose bool) (c vfCase) {
 	var e1 vfE1
 	e1.Cfg[0] = vfSideCfg{IL: x.IL, TSN: 1000, RTOMax: 2000}
+	x.Opt.apply(&e1.Cfg[0])
 	e1.Cfg[1] = vfSideCfg{IL: x.IL, TSN: x.TSN}
-	bundled, garbageAfterData, phantoms := 0, false, 0
+	bundled, garbageAfterData, phantoms, strays := 0, false, 0, 0
 	pm := vfBubble(t, func() {
 		s := newVfSim(t, &e1, verbose)
 		p := newVfPuppet(s, 1, vfPuppetCfg{IL: x.IL, TSN: x.TSN, ARwnd: 1 << 20})
@@ -707,9 +726,79 @@ func runC03Foreign(t *testing.T, x c03Foreign, verbose bool) (c vfCase) {
 			}
 			s.closeAll()
 		}()
-		if !p.connectAsServer(30 * time.Second) {
-			c.fail("puppet-handshake", "victim did not establish with the puppet")
-			return
+		type sent struct {
+			sid   uint16
+			unord bool
+			hash  uint64
+			n     int
+		}
+		var msgs []sent
+		seq := map[[2]int]uint32{} // (sid, unordered) -> next SSN / MID
+		if x.HS == 0 {
+			if !p.connectAsServer(30 * time.Second) {
+				c.fail("puppet-handshake", "victim did not establish with the puppet")
+				return
+			}
+		} else {
+			// the endpoint is the server; the puppet's COOKIE-ECHO travels with its first DATA chunks
+			s.role[0] = 2
+			s.startSide(0)
+			s.o.settle(0)
+			p.autoHS = false
+			var cookie []byte
+			p.onPacket = func(pk *wPacket) {
+				for i := range pk.Chunks {
+					ch := &pk.Chunks[i]
+					switch ch.Type {
+					case wtINITACK:
+						p.peerTag, p.peerTSN, p.peerARwnd = ch.ITag, ch.ITSN, ch.ARwnd
+						p.rcvCum = ch.ITSN - 1
+						for _, pr := range ch.Params {
+							if pr.Type == 7 {
+								cookie = pr.Val
+							}
+						}
+					case wtCOOKIEACK:
+						p.established = true
+					}
+				}
+			}
+			p.send(p.initChunk())
+			s.o.settle(50 * time.Millisecond)
+			if cookie == nil {
+				c.fail("puppet-handshake", "no INIT-ACK with a cookie")
+				return
+			}
+			p.peerCookie = cookie
+			out := []wChunk{{Type: wtCOOKIEECHO, Val: cookie}}
+			for j := 0; j < 2; j++ {
+				pl := vfPayload(6500+j, 30+500*j)
+				out = append(out, p.data(0, seq[[2]int{0, 0}], false, pl))
+				seq[[2]int{0, 0}]++
+				msgs = append(msgs, sent{0, false, vfHash64(pl), len(pl)})
+			}
+			for j := range out {
+				out[j].encodeBody()
+			}
+			raw := wEncode(&wPacket{Src: 5000, Dst: 5000, VTag: p.peerTag, Chunks: out}, 0)
+			p.sendRaw(raw)
+			for j := 0; j < x.HSRep; j++ {
+				s.o.settle(time.Duration(x.HSGapMs) * time.Millisecond)
+				p.sendRaw(raw)
+			}
+			s.o.run(func() bool {
+				s.mu.Lock()
+				defer s.mu.Unlock()
+				return s.hsDone[0] && p.established
+			}, time.Now().Add(30*time.Second))
+			s.mu.Lock()
+			ok := s.hsDone[0] && s.hsErr[0] == nil && p.established
+			s.mu.Unlock()
+			if !ok {
+				c.fail("puppet-handshake", "the endpoint did not establish with a peer that bundles DATA with its COOKIE-ECHO")
+				return
+			}
+			p.onPacket = nil
 		}
 		s.afterEstablished()
 		p.autoSack = true
@@ -720,14 +809,6 @@ func runC03Foreign(t *testing.T, x c03Foreign, verbose bool) (c vfCase) {
 		if x.Slow {
 			s.pause(0)
 		}
-		type sent struct {
-			sid   uint16
-			unord bool
-			hash  uint64
-			n     int
-		}
-		var msgs []sent
-		seq := map[[2]int]uint32{} // (sid, unordered) -> next SSN / MID
 		var last []byte
 		dataBefore := false
 		var phantomFwd *wChunk
@@ -803,6 +884,24 @@ func runC03Foreign(t *testing.T, x c03Foreign, verbose bool) (c vfCase) {
 				p.sendRaw(raw)
 			case "sack":
 				p.sendSack()
+			case "stray":
+				// handshake chunks out of place: a retransmitted COOKIE-ECHO (the real cookie if the
+				// puppet was the client, else any: the endpoint never issued one), a COOKIE-ACK, an INIT-ACK
+				switch st.G {
+				case 0:
+					ck := p.peerCookie
+					if ck == nil {
+						ck = []byte("no-such-cookie-was-ever-issued!!")
+					}
+					p.send(wChunk{Type: wtCOOKIEECHO, Val: ck})
+				case 1:
+					p.send(wChunk{Type: wtCOOKIEACK})
+				default:
+					ack := wChunk{Type: wtINITACK, ITag: p.myTag, ARwnd: p.cfg.ARwnd, OS: 0xffff, IS: 0xffff, ITSN: p.cfg.TSN}
+					ack.Params = append([]wTLV{{Type: 7, Val: p.cookie}}, p.extParams()...)
+					p.send(ack)
+				}
+				strays++
 			case "hb":
 				p.send(wChunk{Type: wtHB, Params: []wTLV{{Type: 1, Val: []byte("foreign-heartbeat")}}})
 			case "msg":
@@ -936,12 +1035,14 @@ func runC03Foreign(t *testing.T, x c03Foreign, verbose bool) (c vfCase) {
 			}
 			oi := 0
 			for _, r := range rs {
-				if pool[r.Hash] > 0 {
-					pool[r.Hash]--
-					continue
-				}
+				// (tiny payloads may coincide: the ordered sequence is matched first, greedily, which
+				// embeds it whenever any assignment does; what is left over must be the unordered ones)
 				if oi < len(wo) && wo[oi].hash == r.Hash && wo[oi].n == r.N {
 					oi++
+					continue
+				}
+				if pool[r.Hash] > 0 {
+					pool[r.Hash]--
 					continue
 				}
 				c.fail("delivered-data-corrupted", "stream %d: read a message of %d bytes (hash %x) that the peer did not send at this position (ordered message %d of %d expected: %d bytes)", sid, r.N, r.Hash, oi, len(wo), func() int {
@@ -982,6 +1083,15 @@ func runC03Foreign(t *testing.T, x c03Foreign, verbose bool) (c vfCase) {
 	}
 	if phantoms > 0 {
 		c.class("forward-tsn-that-skips-bundled-with-data")
+	}
+	if strays > 0 {
+		c.class("stray-handshake-chunk")
+	}
+	if x.HS == 1 {
+		c.class("cookie-echo-bundled-with-data")
+		if x.HSRep > 0 {
+			c.class("cookie-echo-packet-retransmitted")
+		}
 	}
 	c.Nontrivial = bundled > 0 && garbageAfterData
 	return c
